@@ -75,10 +75,16 @@ def _run_case_sym(args):
         for ob in res.obligations:
             c = ctx_by_path.get(ob.path)
             if ob.kind == "cover":
-                st, secs = solve.check_sat(ob.pc, ob.goal, c)
+                if ob.status == "sat":
+                    st, secs = "sat", 0.0
+                else:
+                    st, secs = solve.check_sat(ob.pc, ob.goal, c)
                 out["covers"].append({"id": ob.oid, "path": ob.path, "status": st, "time_s": secs})
                 continue
-            st, be, secs, model = solve.check_valid(ob.pc, ob.goal, c)
+            if ob.status == "proved":
+                st, be, secs, model = "proved", ob.backend, ob.time_s, None
+            else:
+                st, be, secs, model = solve.check_valid(ob.pc, ob.goal, c)
             rec = {"id": ob.oid, "path": ob.path, "status": st, "backend": be, "time_s": round(secs, 4),
                    "note": ob.note, "npc": len(ob.pc)}
             if st != "proved":
@@ -255,7 +261,16 @@ class Report:
                 fail_ids = [f["obligation"] for f in o["failures"]]
                 rec["repro"] = {"inputs": o.get("used", j["inputs"]), "failed": fail_ids,
                                 "how": how, "detail": o.get("detail", "")}
+        # one report per obligation id: prefer a path whose counter-example replays
+        best = {}
         for key, rec in per_ob.items():
+            oid = rec["ob"]["id"]
+            if oid not in best or (best[oid]["repro"] is None and rec["repro"] is not None):
+                rec["npaths"] = best.get(oid, {}).get("npaths", 0) + 1
+                best[oid] = rec
+            else:
+                best[oid]["npaths"] = best[oid].get("npaths", 1) + 1
+        for oid_, rec in best.items():
             ob, r = rec["ob"], rec["r"]
             inputs = (rec["repro"] or {}).get("inputs") or ob.get("inputs") or {}
             f = match_finding(self.findings, self.pid, ob["id"], inputs)
@@ -264,10 +279,11 @@ class Report:
                 continue
             self.nreplay += 1
             os.makedirs(os.path.join(EVID, "replay"), exist_ok=True)
-            path = os.path.join(VERIF, "evidence", "replay", "%s-%d.json" % (self.pid, self.nreplay))
+            path = os.path.join(EVID, "replay", "%s-%d.json" % (self.pid, self.nreplay))
             doc = {"property": self.pid, "case": r["case"], "obligation": ob["id"], "path": ob["path"],
                    "solver": {"status": ob["status"], "backend": ob["backend"], "goal": ob.get("goal"),
                               "model_inputs": ob.get("inputs")},
+                   "failing_paths": rec.get("npaths", 1),
                    "replayed_on_real_code": rec["repro"] is not None,
                    "replay": rec["repro"], "repo": REPO}
             with open(path, "w", encoding="utf-8") as fh:
@@ -326,7 +342,7 @@ class Report:
             seen.add(key)
             self.nreplay += 1
             os.makedirs(os.path.join(EVID, "replay"), exist_ok=True)
-            path = os.path.join(VERIF, "evidence", "replay", "%s-%d.json" % (self.pid, self.nreplay))
+            path = os.path.join(EVID, "replay", "%s-%d.json" % (self.pid, self.nreplay))
             with open(path, "w", encoding="utf-8") as fh:
                 json.dump({"property": self.pid, "case": cf["case"], "obligation": cf["failed"][0],
                            "replayed_on_real_code": True, "source": "conformance run",
@@ -362,7 +378,7 @@ class Report:
                     continue
                 self.nreplay += 1
                 os.makedirs(os.path.join(EVID, "replay"), exist_ok=True)
-                path = os.path.join(VERIF, "evidence", "replay", "%s-%d.json" % (pid, self.nreplay))
+                path = os.path.join(EVID, "replay", "%s-%d.json" % (pid, self.nreplay))
                 with open(path, "w", encoding="utf-8") as fh:
                     json.dump({"property": pid, "obligation": v["obligation"], "replayed_on_real_code": True,
                                "replay": v, "repo": REPO}, fh, indent=1, ensure_ascii=False, default=str)
@@ -423,7 +439,11 @@ class Report:
             if line not in printed:
                 print(line)
                 printed.add(line)
+        seen_v = {}
         for oid, path, repro in self.violations:
+            if oid not in seen_v or (repro and not seen_v[oid][2]):
+                seen_v[oid] = (oid, path, repro)
+        for oid, path, repro in seen_v.values():
             print("VIOLATION property=%s replay=%s obligation=%s%s"
                   % (pid, path, oid, "" if repro else " no-failing-input-found"))
         for u in self.undecided:
